@@ -38,6 +38,11 @@ CHECKS = {
             "Random words of adjacent references under adversarial value environments (self/mutual reference, $-text, braces, regex-special) in three quoting forms, values exported or assigned.",
             "names matched greedily as [A-Za-z0-9_]+; unquoted words compared modulo blank runs",
             "DESIGN.md 3 C10"),
+    "C12": ("exploration",
+            "runtime monitoring: observer argv in prepared directory populations compared with a reference expander (brace product, inclusive range, HOME, sorted non-hidden matches); failing lines reduced to the single failing word",
+            "Random brace terms from a grammar, ranges over boundary bounds, tilde forms and glob patterns against 5 directory populations, each next to quoted neighbours, executed by the real binary.",
+            "reference expander in lib/c12.py; one expansion kind per word; words expanding to an empty word not generated",
+            "DESIGN.md 3 C12"),
 }
 
 NOT_YET = "check not built yet (work in progress); runtime monitoring is applicable and planned, see DESIGN.md section 3"
